@@ -35,7 +35,12 @@ def gen_data(rng, nmax=5):
             vals = [rng.choice([0, 1, -1, 127, 128, 255, 256, -128, -129, 32767, 32768, 65535, 65536, -32768, 2**31 - 1, 2**31, 2**32 - 1, 2**32, 2**32 + 5, -(2**31), -(2**31) - 1, rng.getrandbits(33) - 2**32, rng.getrandbits(8)]) for _ in range(rng.randint(1, 9))]
             out.append({"name": name, "type": t, "vals": vals})
         elif t == "string":
-            out.append({"name": name, "type": t, "s": "".join(rng.choice(STR_CHARS) for _ in range(rng.randint(0, 12)))})
+            s_ = "".join(rng.choice(STR_CHARS) for _ in range(rng.randint(0, 12)))
+            if rng.random() < 0.2:
+                # a backslash is a character like any other (a path, a regular expression): "strings as their bytes"
+                at = rng.randrange(len(s_) + 1)
+                s_ = s_[:at] + "\\" + rng.choice("ntrfuN0abcq ") + s_[at:]
+            out.append({"name": name, "type": t, "s": s_})
         else:
             out.append({"name": name, "type": t, "n": rng.randint(1, 9)})
     return out
@@ -236,7 +241,10 @@ class Renderer:
         return "," + ("" if self.plain else self.r.choice([" ", "", "  ", " \t"]))
 
     def var(self, stmt):
-        return stmt["var"] + ("[%d]" % stmt["idx"] if stmt["idx"] is not None else "")
+        if stmt["idx"] is None:
+            return stmt["var"]
+        # (an index is a plain decimal number; leading zeros do not change it)
+        return stmt["var"] + ("[%d]" if self.plain or self.r.random() < 0.8 else self.r.choice(["[%02d]", "[%03d]"])) % stmt["idx"]
 
     def stmt(self, s):
         k, c = s["k"], self.sep
@@ -287,7 +295,7 @@ class Renderer:
             elif d["type"] == "string":
                 out.append('%s%s: .string "%s"' % (ind, d["name"], d["s"]))
             else:
-                out.append("%s%s: .zero %d" % (ind, d["name"], d["n"]))
+                out.append(("%s%s: .zero %d" if self.plain or self.r.random() < 0.8 else "%s%s: .zero %03d") % (ind, d["name"], d["n"]))
             if not self.plain and self.r.random() < 0.2:
                 out[-1] += "  # " + self.r.choice(["comment", "x1, 5", ".word 3", "la x1, q", "item #2", "# x #", 'say "hi"', 'a "'])
         return out
@@ -313,11 +321,23 @@ class Renderer:
             if pos[l] == len(stmts):
                 lines.append(l + ":")
         dl = self.data_lines(ast["data"])
+        # line ends: LF, CR LF or (classic Mac) CR only - a text is a sequence of lines whatever separates them
+        nl = "\n" if self.plain else r.choice(["\n", "\n", "\n", "\r\n", "\r"])
+        return self._join(nl, ast, lines, dl, data_first, text_directive)
+
+    def _join(self, nl, ast, lines, dl, data_first, text_directive):
+        r = self.r
+
+        class _J:
+            def join(self_, parts):
+                return nl.join(parts)
+
+        J = _J()
         if dl:
             df = data_first if data_first is not None else (r.random() < 0.5)
             if df:
-                return "\n".join([".data"] + dl + [".text"] + lines)
+                return J.join([".data"] + dl + [".text"] + lines)
             td = text_directive if text_directive is not None else (r.random() < 0.5)
-            return "\n".join(([".text"] if td else []) + lines + [".data"] + dl)
+            return J.join(([".text"] if td else []) + lines + [".data"] + dl)
         td = text_directive if text_directive is not None else (not self.plain and r.random() < 0.3)
-        return "\n".join(([".text"] if td else []) + lines)
+        return J.join(([".text"] if td else []) + lines)
